@@ -42,6 +42,7 @@ type PrevCert struct {
 	Doubles    []DSig
 	NonSigners []string // committee members that did not sign
 	NonSignPct uint64   // their share of the committee's voting power, floor, in percent
+	Digest     string   // certificate results + absentees, rendered: part of the chain's state (the next block applies them)
 }
 
 type cdata struct {
@@ -64,15 +65,20 @@ func NewRef(w *World) *Ref {
 	return &Ref{W: w, NonSign: map[string]uint64{}, CData: map[uint64]*cdata{}, DSIndex: map[string]bool{}}
 }
 
-// Key renders the persistent part that is NOT visible in the raw state (the double-signer
-// index lives in the indexer), for the BFS state key.
+// Key renders the part of the chain's state that is NOT visible in the raw state scan, for the BFS
+// state key: the double-signer index (lives in the indexer) and the certificate of the last block,
+// whose results and signer bitmap the NEXT block's BeginBlock applies (lives in the block store).
 func (r *Ref) Key() string {
 	var ks []string
 	for k := range r.DSIndex {
 		ks = append(ks, fmt.Sprintf("%x", k))
 	}
 	sort.Strings(ks)
-	return strings.Join(ks, ",")
+	pending := ""
+	if r.Prev != nil {
+		pending = r.Prev.Digest
+	}
+	return strings.Join(ks, ",") + "|pending:" + pending
 }
 
 // mval is the mini model of one validator record inside one block.
